@@ -1519,6 +1519,35 @@ def universe_strategy(draw):
     return rename_fields(draw, u)
 
 
+def directed_universe() -> dict:
+    """
+    Shapes that random universes hit too rarely: unions whose options are field-less composites (empty, void-only, sealed and
+    delimited) in non-first position, such unions nested in structs and in arrays, an empty struct field, a union of arrays.
+    to_builtin() renders a field-less composite as {} -- converting back must still select that option.
+    """
+
+    def td(name, attrs, union=False, sealed=True):
+        return {"ns": ["dshape"], "name": name, "major": 1, "minor": 0, "port_id": None, "kind": "union" if union else "struct", "deprecated": False, "doc": [],
+                "body": {"union": union, "sealed": sealed, "extent_extra": 1, "extent_bits": 512 if name != "Holder" else 8192, "attrs": attrs}}
+
+    def fld(name, t):
+        return {"k": "field", "type": t, "name": name, "doc": None}
+
+    def ref(name):
+        return {"t": "ref", "full": "dshape." + name, "major": 1, "minor": 0}
+
+    u8 = {"t": "uint", "bits": 8, "cast": "saturated"}
+    types = [
+        td("Nothing", []),
+        td("NothingExt", [], sealed=False),
+        td("OnlyVoid", [{"k": "void", "bits": 8}]),
+        td("Command", [fld("go", u8), fld("stop", ref("Nothing")), fld("pause", ref("OnlyVoid")), fld("later", ref("NothingExt")), fld("speed", {"t": "int", "bits": 12, "cast": "saturated"})], union=True),
+        td("Holder", [fld("first", ref("Command")), fld("nothing", ref("Nothing")), fld("many", {"t": "varr", "elem": ref("Command"), "cap": 4, "incl": True}), fld("pair", {"t": "farr", "elem": ref("Command"), "n": 2})], sealed=False),
+        td("UnionOfArrays", [fld("a", {"t": "varr", "elem": u8, "cap": 3, "incl": True}), fld("b", {"t": "farr", "elem": {"t": "bool"}, "n": 5}), fld("c", {"t": "varr", "elem": ref("Nothing"), "cap": 2, "incl": True}), fld("d", ref("Holder"))], union=True),
+    ]
+    return {"roots": [{"name": "dshape", "types": types}]}
+
+
 # -------------------------------------------------------------------------------------------------------------- driver
 def evaluate(ctx: core.Ctx, U: Uni, ops: typing.List[dict], results: typing.List[dict], sink):
     for op, res in zip(ops, results):
@@ -1552,7 +1581,7 @@ def run(ctx: core.Ctx):
     q = ctx.quick
     n_uni = 15 if q else 150
     n_frag = 6 if q else 6
-    universes = draw_list(universe_strategy(), n_uni, ctx.seed * 1000003)
+    universes = [directed_universe()] + draw_list(universe_strategy(), n_uni, ctx.seed * 1000003)
     ctx.extra.update(universes=len(universes), types=0, operations=0, generation_failures=0)
     workers = max(2, min(8, (os.cpu_count() or 4)))
     gen_errors: typing.List[str] = []
